@@ -69,7 +69,7 @@ def main():
         external = rng.random() < 0.25
         out = rng.choice(["out.c", "out.c", "mod.c", "noext", "a.b.c", "s0000000000.c", "x.C"])
         pre = rng.sample(nm, rng.randint(0, 14)) + rng.sample(["s0000000000.c", "d0000000000.c", "s0000000001.c", "d0000000003.c", "s0000000007.c"], rng.randint(0, 4))
-        form = rng.choice(["rel", "dotrel", "abs", "nested", "inputinside"])
+        form = rng.choice(["rel", "dotrel", "abs", "nested", "inputinside", "long", "longabs"])
         clean = rng.random() < 0.6
         if j * 12 < len(nm):
             # every near-miss name is present in at least one run with the clean option
@@ -89,8 +89,11 @@ def main():
             s, p = scen[j], pred[j]
             o = s["o"]
             root = os.path.join(wd, "r%d" % j)
+            # "long": an output path of more than 255 (NAME_MAX) but less than PATH_MAX characters, made of ordinary components
+            LONG = os.path.join("Makefile.d", "L" * 100, "M" * 100, "N" * 60)
             outdir = {"rel": root, "dotrel": os.path.join(root, "sub"), "abs": os.path.join(root, "o"),
-                      "nested": os.path.join(root, "a", "b"), "inputinside": root}[s["form"]]
+                      "nested": os.path.join(root, "a", "b"), "inputinside": root, "long": os.path.join(root, LONG),
+                      "longabs": os.path.join(root, LONG)}[s["form"]]
             os.makedirs(outdir, exist_ok=True)
             os.makedirs(os.path.join(root, "elsewhere"), exist_ok=True)
             indir = outdir if s["form"] == "inputinside" else os.path.join(root, "elsewhere")
@@ -121,7 +124,8 @@ def main():
                 args += ["-r", ref]
             cwd = root
             outarg = {"rel": o["out"], "dotrel": "./sub/" + o["out"], "abs": os.path.join(outdir, o["out"]),
-                      "nested": "a/b/" + o["out"], "inputinside": o["out"]}[s["form"]]
+                      "nested": "a/b/" + o["out"], "inputinside": o["out"], "long": LONG + "/" + o["out"],
+                      "longabs": os.path.join(outdir, o["out"])}[s["form"]]
             before = snapshot(root)
             rc, so, se = run(args + [inp, outarg], cwd=cwd, timeout=120)
             after = snapshot(root)
